@@ -7,7 +7,7 @@
    comb / fuel / the script [evs] quantify over every reader behaviour (arbitrary
    chunking, 0-byte reads, an error at any offset, data together with EOF/error).
    [matches_desc H dg sz bs] = length bs = sz /\ dg = alg:H alg bs /\ dg is a valid digest. *)
-From Oras Require Import Base.Prelude Generated.GC05 Model.Verify Proofs.Verify Proofs.VerifyComplete Proofs.VerifyProxy Proofs.VerifyFuel Proofs.VerifyConc Proofs.VerifyTop Proofs.VerifyWriter Proofs.VerifyNames Proofs.VerifyFileConc Proofs.VerifyOpts Proofs.VerifyChunk Proofs.VerifyEof.
+From Oras Require Import Base.Prelude Generated.GC05 Model.Verify Proofs.Verify Proofs.VerifyComplete Proofs.VerifyProxy Proofs.VerifyFuel Proofs.VerifyConc Proofs.VerifyTop Proofs.VerifyWriter Proofs.VerifyNames Proofs.VerifyFileConc Proofs.VerifyOpts Proofs.VerifyChunk Proofs.VerifyEof Proofs.VerifyFacts.
 
 (* ReadAll hands back data only when length and digest match and the reader held
    nothing else *)
@@ -579,6 +579,30 @@ Theorem C05_concurrent_file_explored :
 Proof. exact explore_f_reachable. Qed.
 Print Assumptions C05_concurrent_file_explored.
 
+(* the memory and file-store transition systems for EVERY reader script (io.EOF not final):
+   what a successful concurrent push stores / makes visible is exactly what its reader
+   delivered before its first EOF -- no premise on the script *)
+Theorem C05_concurrent_memory_upto_eof :
+  forall (H : str -> str -> str) m ts sched st,
+    mem_reach H m -> Forall (fun t => m_pc t = MStart /\ m_lim t = None) ts ->
+    mrun H (mkM m ts) sched = Some st ->
+    forall i t buf, nth_error (ms_thr st) i = Some t -> m_pc t = MRead None buf -> buf = upto_eof (m_evs t).
+Proof. exact memory_concurrent_upto. Qed.
+Print Assumptions C05_concurrent_memory_upto_eof.
+
+Theorem C05_concurrent_file_upto_eof :
+  forall (H : str -> str -> str) (U : list str),
+    (forall a c, In a U -> In c U -> resolve_name a = resolve_name c -> a = c) ->
+    forall s ts sched st,
+    file_reach_names H s -> (forall n, name_in n (f_names s) = true -> In n U) ->
+    Forall (fun t => ft_pc t = FStart /\ In (ft_name t) U) ts ->
+    frun H (mkFC s ts) sched = Some st ->
+    forall i st' t out path, fstep H st i = Some st' -> nth_error (fc_thr st) i = Some t ->
+      ft_pc t = FWrite None out path ->
+      file_fetch (fc_st st') (ft_name t) (ft_d t) = Some (upto_eof (ft_evs t)).
+Proof. exact file_concurrent_upto. Qed.
+Print Assumptions C05_concurrent_file_upto_eof.
+
 (* the outcome set the implementation's concurrent runs are compared with (exhaustive
    interleaving of the micro-steps, [explore]) consists of runs of the transition
    system only, so the invariant above holds for each of those outcomes *)
@@ -635,6 +659,60 @@ Theorem C05_explorer_fuel :
     In st' (explore H (4 * length ts + 2) big (mkC blobs ts)).
 Proof. exact split_writes_fuel. Qed.
 Print Assumptions C05_explorer_fuel.
+
+(* 17 syntactic facts about the mirrored Go functions (statement order and exact shape of
+   the modelled statements), regenerated from the source on every run (kind c05_srcfact) *)
+Theorem C05_source_facts :
+  (c05_f_readall &&
+   c05_f_readfull &&
+   c05_f_newvr &&
+   c05_f_vr_read &&
+   c05_f_vr_verify &&
+   c05_f_ensure_eof &&
+   c05_f_fetchall &&
+   c05_f_copybuffer &&
+   c05_f_limited &&
+   c05_f_memory_push &&
+   c05_f_oci_push &&
+   c05_f_oci_ingest &&
+   c05_f_file_push &&
+   c05_f_file_save &&
+   c05_f_file_pushfile &&
+   c05_f_resolve &&
+   c05_f_proxy_fetch) = true.
+Proof. exact c05_srcfacts_hold. Qed.
+Print Assumptions C05_source_facts.
+
+(* the size guards of the model are the conditions of the Go `if` statements themselves
+   (LimitedStorage.Push: expected.Size > ls.PushLimit; ReadAll and NewVerifyReader:
+   desc.Size < 0; VerifyReader.Verify: vr.base.N > 0), translated into Gallina by the
+   translator on every run (the c05_g_ functions) *)
+Theorem C05_source_guards :
+  forall (H : str -> str -> str) comb,
+  (forall St (push : St -> desc -> base -> option rerr * St) limit st d evs,
+     limited_push push limit st d evs =
+     if c05_g_limited (d_sz d) limit then (Some ETooBig, st) else push st d (mkBase evs (Some (d_sz d)))) /\
+  (forall fixed fuel src dg sz,
+     c05_g_readall_size sz = true ->
+     fst (read_all H comb fixed fuel src dg sz) = (Some EInvalidSize, [])) /\
+  (forall fixed fuel src dg sz,
+     c05_g_readall_size sz = false ->
+     read_all H comb fixed fuel src dg sz =
+     let '((buf, e), v') := read_full (vr_read comb) fuel (new_vr fixed src dg sz) (Z.to_nat sz) [] in
+     match e with
+     | Some e0 => ((Some e0, buf), v')
+     | None => let '(e1, v'') := vr_verify H comb fuel dg v' in ((e1, buf), v'')
+     end) /\
+  (forall fixed src dg sz,
+     new_vr_gen fixed src dg sz =
+     if negb (valid_digest dg) then mkVr src sz [] (Some EBadDigest) false
+     else if fixed && c05_g_newvr_size sz then mkVr src sz [] (Some EInvalidSize) false
+          else mkVr src sz [] None false) /\
+  (forall fuel dg v,
+     v_verified v = false -> v_err v = None -> c05_g_verify_early (v_N v) = true ->
+     vr_verify H comb fuel dg v = (Some EEarly, v)).
+Proof. exact c05_source_guards. Qed.
+Print Assumptions C05_source_guards.
 
 (* the behaviour before the repair (NewVerifyReader accepted a negative Size): the
    CopyBuffer path stored the empty blob under a descriptor of size -1 *)
